@@ -115,12 +115,26 @@ impl<D: DictionaryAccess> StatefulTokenizer<D> {
         &self.dictionary
     }
 
+    /// Read-only copy of the lattice of the last analysis (verification hook)
+    #[cfg(feature = "verif")]
+    pub fn verif_lattice(&self) -> crate::verif::VerifLattice {
+        self.lattice.verif_dump()
+    }
+
+    /// Input buffer of the last analysis (verification hook)
+    #[cfg(feature = "verif")]
+    pub fn verif_input(&self) -> &InputBuffer {
+        &self.input
+    }
+
     /// Perform the actual tokenization so the analysis result will be available
     /// for consumption
     pub fn do_tokenize(&mut self) -> SudachiResult<()> {
         self.input.start_build()?;
+        verif_point!("tok:start_build");
         self.rewrite_input()?;
         self.input.build(self.dictionary.grammar())?;
+        verif_point!("tok:input_built");
 
         if self.input.current().is_empty() {
             return Ok(());
@@ -133,6 +147,7 @@ impl<D: DictionaryAccess> StatefulTokenizer<D> {
         }
 
         self.build_lattice()?;
+        verif_point!("tok:lattice_built");
 
         if debug {
             println!("=== Lattice dump:");
@@ -150,8 +165,10 @@ impl<D: DictionaryAccess> StatefulTokenizer<D> {
         };
 
         for plugin in self.dictionary.path_rewrite_plugins() {
+            verif_point!("tok:path_rewrite");
             path = plugin.rewrite(&self.input, path, &self.lattice)?;
         }
+        verif_point!("tok:split_path");
 
         path = split_path(&self.dictionary, path, self.mode, self.subset, &self.input)?;
 
@@ -173,6 +190,7 @@ impl<D: DictionaryAccess> StatefulTokenizer<D> {
         self.lattice.fill_top_path(&mut self.top_path_ids);
         self.top_path_ids.reverse();
         for pid in self.top_path_ids.drain(..) {
+            verif_point!("tok:best_path_node");
             let (inner, cost) = self.lattice.node(pid);
             let wi = if inner.word_id().is_oov() {
                 let curr_slice = self.input.curr_slice_c(inner.char_range()).to_owned();
@@ -214,6 +232,7 @@ impl<D: DictionaryAccess> StatefulTokenizer<D> {
 
     fn rewrite_input(&mut self) -> SudachiResult<()> {
         for p in self.dictionary.input_text_plugins() {
+            verif_point!("tok:input_plugin");
             p.rewrite(&mut self.input)?;
         }
         Ok(())
@@ -267,6 +286,7 @@ impl<'a> LatticeBuilder<'a> {
                 continue;
             }
 
+            verif_point!("lattice:position");
             self.node_buffer.clear();
             let mut created = CreatedWords::default();
             for e in self.lexicon.lookup(input_bytes, byte_off) {
@@ -289,6 +309,7 @@ impl<'a> LatticeBuilder<'a> {
                 self.lattice.insert(node, self.matrix);
             }
 
+            verif_point!("lattice:after_lookup");
             // OOV
             if !self
                 .input
@@ -326,6 +347,7 @@ impl<'a> LatticeBuilder<'a> {
     {
         let start_size = self.node_buffer.len();
         let num_provided = plugin.provide_oov(self.input, char_offset, other, self.node_buffer)?;
+        verif_point!("lattice:oov_provided");
         for idx in start_size..(start_size + num_provided) {
             let node = self.node_buffer[idx].clone();
             other = other.add_word(node.char_range().len() as i64);
